@@ -458,6 +458,7 @@ Definition apply_core (x : xsys) (lab : bytes) (kind : N) (idtxt arg : bytes) : 
     else if kind =? 112 then run_op lab (set_w x true (x_wh x)) seg0          (* p: the peer stops reading *)
     else if kind =? 107 then run_op lab x seg0                                (* k<n>: bytes per write call; the bytes on the wire are the same *)
     else if kind =? 113 then run_op lab (set_ev x true (x_evh x)) seg0         (* q: ConnectionEvents is not polled *)
+    else if kind =? 90 then run_op lab (set_ev x true (x_evh x)) seg0         (* Z: the application drops ConnectionEvents for good: nothing is ever observed on it again *)
     else if kind =? 81 then                                                    (* Q: polled again: everything queued comes out *)
       run_op lab (set_ev x false []) (mkSeg [] [] [] (x_evh x) false)
     else if kind =? 117 then                                                   (* u: it reads again; the blocked write completes *)
